@@ -20,7 +20,7 @@ RULE = ("one method call per case: the curated str methods (upper lower title ca
         "endswith isalpha isdigit isspace islower isupper partition rpartition rsplit translate __contains__) and the "
         "native split (explicit separator; regex=True with the engine's match spans as data) / splitlines(False|True) / "
         "join / ljust / rjust, each with arguments from a pool built around the text (separators present, absent, "
-        "adjacent, at the ends, multi-character, overlapping like 'aa' in 'aaa'; widths below / at / above the length; "
+        "adjacent, at the ends, multi-character, overlapping like 'aa' in 'aaa', regex metacharacters like '.', '|', '(', '*'; widths below / at / above the length; "
         "fill characters incl. wrong-length ones) on FmtStrs with >= 1 run: 1-5 runs cut at random positions (inside "
         "words and inside separators), attributes = a shared base + per-run extras (so that some, all or no formatting "
         "is shared), empty runs with unrelated attributes in first / middle / last position, all-empty FmtStrs. "
@@ -63,7 +63,9 @@ TECHNIQUE = ("Coq proofs by induction over the scanned text / the span list on t
 # no other line boundaries than \n, no ESC / CSI
 ALPHA = "abAB ,-\n\t"
 EXTRA = "ßéǆ1٣.x"
-SEPS = [",", " ", "ab", "--", "\n", "a", ", ", "aa", "b,", "\t", "xyz", "A"]
+SEPS = [",", " ", "ab", "--", "\n", "a", ", ", "aa", "b,", "\t", "xyz", "A",
+        # separators that mean something to the regex engine: split() must escape them
+        ".", "a.", "|", "(", "*", "+", "a|b", "[a]", "\\", "$", "^"]
 
 
 def rand_word(rng, alphabet):
@@ -416,6 +418,8 @@ def stats(inp, out):
                 yield "sep_adjacent"
             if len(sep) > 1:
                 yield "sep_multichar"
+            if re.escape(sep) != sep and not sep.isspace():
+                yield "sep_regex_special"
             # a formatting change inside an occurrence of the separator
             pos = text.find(sep)
             bounds = set()
